@@ -164,9 +164,11 @@ def listOp (abs : Bool) (e : List Text) : PmOp → List Text
 /-- the readings of a segment list: literally, or with a leading `.` taken as the shield of what
 follows it (the text `/./` after an authority is both the list `[".", ""]` and the shielded `[""]`) -/
 def readings (e : List Text) : List (List Text) :=
-  match e with
-  | d :: r => if d = segDot && needsShieldHead r then [e, r] else [e]
-  | [] => [e]
+  (match e with
+   | d :: r => if d = segDot && needsShieldHead r then [e, r] else [e]
+   | [] => [e]) ++
+  -- the text written for `e` may carry a shield, which the next inner step reads literally
+  (if needsShieldHead e then [segDot :: e] else [])
 
 /-- symbolic append is a sequence of symbolic pushes; each push may read the text left by the
 previous one either way, so the acceptable results are those of every consistent re-reading -/
